@@ -51,6 +51,11 @@ def oracle(scn, trace):
         if "ABORTED" in inf.holds and (inf.first_true is not None or inf.decision == "A"):
             continue  # C13 / C16
         if not inf.classified:
+            if a.kind == "res" and scn["cfg"].get("result_classifier") and end["how"] == "return" and not inf.polls \
+                    and not any(e["ev"] == "RCLASSIFY" for e in inf.post):
+                # a value the configured result classifier calls a failure came back as call()'s result, unexamined
+                out.append(V("R3", "call() returned a value without consulting the configured result classifier",
+                             {"call": cid, "end": end, "entry": ent, "late": (scn.get("place") or {}).get("late")}))
             continue
         if end["how"] != "raise":
             out.append(V("R2" if a.kind == "exc" else "R3", "failed run returned instead of raising", {"call": cid, "end": end, "entry": ent}))
